@@ -37,6 +37,12 @@ CLAIMS = {
   technique="Lean 4 proof that the range scan equals filter-then-take on the sorted index (all key sets, bounds, limits, times) + differential check incl. hash/ordered index agreement",
   text="Proved: rangeScan = take limit (filter (in bounds and not expired) sorted-entries) with current values (range_spec) — so results are strictly ascending in byte order, inside the inclusive bounds, at most limit, the smallest such, skipped expired entries do not consume the limit (range_props), start > end and limit 0 give nothing (range_empty), nothing in range is missing when the limit is large enough (range_complete); byte-lexicographic order is a strict total order (bytesLt_trans/total) and keys stay unique and sorted in every reachable state (reachable_sorted). Tie: kv engine with shared-prefix key sets, empty/0xFF../truncated bounds, limits 0,1,2,3,100,usize::MAX, expired entries inside the window, all tiers; periodic dumps check that the hash index and the ordered index hold the same keys.",
   note='Trusted: Lean kernel; axioms propext/Classical.choice/Quot.sound; gen_constants.py; the kv harness + driver correspondence (differential, call by call incl. len()/memory_usage()); json-patch, wall clock and key->shard hash enter the model as recorded inputs; concurrency is outside this engine.' + " Partial: the concurrent clauses (stable key seen once, deleted-before never seen) are outside this engine."),
+
+ "C16": dict(engine="cache", design="6/C16",
+  technique="Lean 4 invariant proof of exact cache accounting over all operation sequences + generation-exact hit theorem on a model of ClockCache; differential check of the real ClockCache and of the store with cache on/off",
+  text="Feox.Cache models ClockCache (buckets by hash, record-tagged entries with the generation rules of can_replace_generation, CLOCK sweep with reference bits, watermarks, clear). Proved for every sequence of insert/insert_for_record/get/get_for_record/remove/evict/clear/adjust operations and any bucket hash: reported memory = total size of held entries (accounting, via per-operation invariance lemmas incl. the sweep debit lemma sweepBucket_size), a get_for_record hit comes only from an entry tagged with exactly that generation (hit_is_own_generation), a retired generation never replaces a cached one and a live cached generation is displaced only by itself or a strictly newer one (retired_generation_never_replaces, replace_needs_newer), oversized values are never cached. "
+       "Tie: the cache engine drives the real ClockCache with 1-3 MB watermarks and compares every answer, cache_memory after every call and the full entry listing (bucket, tag, reference bit, size, evictions) with the model, while an independent oracle checks memory = sum of sizes, no hit after remove, usage <= low after eviction; the kv engine runs every store configuration with cache on and off against one reference map (transparency).",
+  note="Trusted: Lean kernel; axioms propext/Classical.choice/Quot.sound; harness+driver correspondence. Partial: store-level transparency and the eviction-target/second-chance clauses are established by the differential runs and harness oracle, not yet by theorems; concurrent interleavings are outside this engine."),
  "C10": dict(
   engine="fmt",
   technique="Lean 4 proofs of codec round trips and layout facts on an independent Lean reader/writer of the documented layout + byte-level differential check of the real store's files and codec functions against it (incl. golden files of the pinned release)",
@@ -95,6 +101,8 @@ def main():
              "kind_free_text": "differential correspondence: real FreeSpaceManager vs Lean model through a line protocol"},
             {"name": "kv", "path": "harness/src/bin/kv.rs + lean/Feox/Kv", "serves_properties": ["C01", "C11", "C12", "C13", "C14"],
              "kind_free_text": "differential correspondence: every public FeoxStore method, call by call, vs the Lean reference map"},
+            {"name": "cache", "path": "harness/src/bin/cache.rs + lean/Feox/Cache", "serves_properties": ["C16"],
+             "kind_free_text": "differential correspondence: real ClockCache vs the Lean cache model"},
             {"name": "fmt", "path": "harness/src/bin/fmt.rs + lean/Feox/Fmt", "serves_properties": ["C10", "C17"],
              "kind_free_text": "differential correspondence: codec functions and whole-file open/recovery vs the Lean layout model"},
         ],
